@@ -201,6 +201,7 @@ type c16Obs struct {
 	Events    []string `json:"events,omitempty"`
 	Callees   []string `json:"callees,omitempty"`
 	Stack     string   `json:"stack,omitempty"` // JSON of the result stack top (when asked for)
+	F39       bool     `json:"f39_shape,omitempty"`
 }
 
 type c16LogCount struct {
@@ -243,7 +244,7 @@ func (c *c16Chain) invoke(script []byte, signers []transaction.Signer, target ut
 	}
 	nlog := 0
 	ic.Log = zap.New(c16LogCount{zapcore.InfoLevel, &nlog})
-	ic.VM.SetGasLimit(200_0000_0000)
+	ic.VM.SetGasLimit(5000_0000_0000)
 	reached := false
 	var baseNtf, baseLog int
 	baseKeys := map[string]string{}
